@@ -121,6 +121,7 @@ type AEvent struct {
 	Stop   bool                 // set by OnCall: end this path here (the outcome is marked Stopped)
 	Ret    AVal                 // what the call was replaced by
 	Nils   map[string]bool      // named values the path has compared with nil so far: true = found nil (read only)
+	Record bool                 // set by OnCall together with handled=false: keep the call in the path's trace although it is entered / left to the default
 }
 
 type AMem struct {
@@ -639,6 +640,7 @@ type aframe struct {
 	backs map[*ssa.BasicBlock]int
 	// symbolic loop iteration (Exec.SymLoop): the header whose phis were replaced by names, what
 	// replaced them, their values on entry, and where the iteration began in the path's record
+	free      map[*ssa.FreeVar]AVal // captured values of a closure entered through its value
 	symHeader *ssa.BasicBlock
 	symPhi    map[*ssa.Phi]AVal
 	symInit   map[string]AVal
@@ -1037,6 +1039,13 @@ func (ex *Exec) run(s *astate) ([]*astate, *AOutcome, error) {
 			caller.env[fr.call] = rv
 			caller.pc++
 			continue
+		case *ssa.IndexAddr:
+			if s.stopAt == nil && !s.stopRet {
+				if fs := ex.forkTableIndex(s, fr, x); len(fs) > 0 {
+					return fs, nil, nil
+				}
+			}
+			fr.env[x] = ex.eval(s, fr, x)
 		case *ssa.Lookup:
 			if s.stopAt == nil && !s.stopRet {
 				if fs := ex.forkLookup(s, fr, x); fs != nil {
@@ -1843,6 +1852,9 @@ func (ex *Exec) val(s *astate, fr *aframe, v ssa.Value) AVal {
 	case *ssa.Builtin:
 		return AVal{K: AUnknown, Path: "builtin." + x.Name()}
 	case *ssa.FreeVar:
+		if b, ok := fr.free[x]; ok {
+			return b
+		}
 		return unknownOf("free:"+x.Name(), x.Type(), false)
 	}
 	// an instruction not yet executed on this path (should not happen: SSA dominance)
@@ -2006,6 +2018,16 @@ func (ex *Exec) eval(s *astate, fr *aframe, v ssa.Value) AVal {
 		return unknownOf("lookup:"+x.Name(), x.Type(), true)
 	case *ssa.Slice:
 		return ex.slice(s, fr, x)
+	case *ssa.MakeClosure:
+		// a function value with its captured variables (a bound method value is a closure over its receiver)
+		if f, ok := x.Fn.(*ssa.Function); ok {
+			v := AVal{K: AUnknown, Path: "func:" + FuncName(f), Fn: f, NonNil: true}
+			for _, b := range x.Bindings {
+				v.Elems = append(v.Elems, ex.val(s, fr, b))
+			}
+			return v
+		}
+		return unknownOf("closure:"+x.Name(), x.Type(), true)
 	case *ssa.MakeSlice:
 		s.serial++
 		name := fmt.Sprintf("local:%s.makeslice#%d", fr.fn.Name(), s.serial)
@@ -2017,6 +2039,9 @@ func (ex *Exec) eval(s *astate, fr *aframe, v ssa.Value) AVal {
 			n = int(k)
 		} else if lv.K == AInt {
 			ln = NameBits(lv.Bits)
+		}
+		if n < 0 && lv.K == AInt && !hasMixBits(lv.Bits) {
+			s.mem.cells[name+".$len"] = AVal{K: AInt, Bits: resize(lv.Bits, 64, false)}
 		}
 		return AVal{K: ASlice, Path: name, Lo: 0, Len: n, LenName: ln}
 	case *ssa.UnOp:
@@ -2908,9 +2933,25 @@ func (ex *Exec) call(s *astate, fr *aframe, x *ssa.Call) (bool, error) {
 			name = FuncName(callee)
 		}
 	}
+	var bindings []AVal
+	if callee != nil && !x.Call.IsInvoke() && x.Call.StaticCallee() == nil {
+		if fv := ex.val(s, fr, x.Call.Value); fv.Fn == callee {
+			bindings = fv.Elems
+		}
+	}
 	if mc, ok := x.Call.Value.(*ssa.MakeClosure); ok {
-		_ = mc
+		// a closure called where it is made: entered only when its captured values are all known here
 		callee = nil
+		if f, isF := mc.Fn.(*ssa.Function); isF && len(mc.Bindings) == len(f.FreeVars) {
+			callee, name = f, FuncName(f)
+			bindings = nil
+			for _, b := range mc.Bindings {
+				bindings = append(bindings, ex.val(s, fr, b))
+			}
+		}
+	}
+	if callee != nil && len(callee.FreeVars) != len(bindings) {
+		callee = nil // a closure whose environment is not known: stays opaque
 	}
 	if b, ok := x.Call.Value.(*ssa.Builtin); ok {
 		fr.env[x] = ex.builtin(s, fr, x, b.Name(), args)
@@ -2933,6 +2974,9 @@ func (ex *Exec) call(s *astate, fr *aframe, x *ssa.Call) (bool, error) {
 			s.trace = append(s.trace, *ev)
 			fr.env[x] = ret
 			return false, nil
+		}
+		if ev.Record {
+			s.trace = append(s.trace, *ev)
 		}
 	}
 	if r, ok := ex.bufferIntrinsic(s, fr, name, args, x); ok {
@@ -2964,6 +3008,12 @@ func (ex *Exec) call(s *astate, fr *aframe, x *ssa.Call) (bool, error) {
 	}
 	if enter {
 		nf := &aframe{fn: callee, env: map[ssa.Value]AVal{}, block: callee.Blocks[0], call: x}
+		if len(bindings) > 0 {
+			nf.free = map[*ssa.FreeVar]AVal{}
+			for i, fvr := range callee.FreeVars {
+				nf.free[fvr] = bindings[i]
+			}
+		}
 		for i, p := range callee.Params {
 			if i < len(args) {
 				nf.env[p] = args[i]
@@ -3066,6 +3116,9 @@ func (ex *Exec) builtin(s *astate, fr *aframe, x *ssa.Call, name string, args []
 						s.mem.Store(fmt.Sprintf("%s[%d]", d.Path, d.Lo+i), tmp[i], elemType(x.Call.Args[0].Type()))
 					}
 					return AVal{K: AInt, Bits: constBits(uint64(n), 64)}
+				}
+				if n, ok := ex.copyAtFill(s, d, src, elemType(x.Call.Args[0].Type())); ok {
+					return n
 				}
 				if d.Lo >= 0 {
 					pre, segs, okD := s.mem.describe(src, elemType(x.Call.Args[0].Type()))
@@ -3505,4 +3558,107 @@ func LinFormBits(b BitVec) (c int64, terms []LinTerm, ok bool) {
 		}
 	}
 	return cc, out, true
+}
+
+// lenBits: the length of a slice/string value as an abstract integer (what the builtin len gives).
+func lenBits(v AVal) (BitVec, bool) {
+	switch v.K {
+	case ASlice, AStr:
+		if v.Len >= 0 {
+			return constBits(uint64(v.Len), 64), true
+		}
+		if v.K == ASlice && v.Lo < 0 {
+			return nil, false
+		}
+		return append(regSource("len("+argName(v)+")", 63), Bit{Kind: BZero}), true
+	case ANil:
+		return constBits(0, 64), true
+	}
+	return nil, false
+}
+
+// copyAtFill: copy(dst[off:], src) into an object the analysed code made with a length that is
+// only known as an expression (make([]byte, len(a)+len(b)+…)), where off is exactly the number of
+// elements written so far: the object is being filled front to back, and src becomes its next
+// segment. The copy is complete (returns len(src)) when the room left, (made length) - off -
+// len(src), is provably non-negative: a sum of lengths with non-negative coefficients.
+func (ex *Exec) copyAtFill(s *astate, d, src AVal, et types.Type) (AVal, bool) {
+	if d.K != ASlice || d.Len >= 0 || !s.mem.isFresh(d.Path) || et == nil {
+		return AVal{}, false
+	}
+	total, has := s.mem.cells[d.Path+".$len"]
+	if !has || total.K != AInt {
+		return AVal{}, false
+	}
+	off := d.LoBits
+	if d.Lo >= 0 {
+		off = constBits(uint64(d.Lo), 64)
+	}
+	if off == nil {
+		return AVal{}, false
+	}
+	// how much of the object is filled: known prefix + the segments appended so far
+	from := s.mem.from[d.Path]
+	if _, hasFrom := s.mem.from[d.Path]; !hasFrom {
+		// nothing but (possibly) individual cells written: filled up to the highest known cell
+		for _, k := range s.mem.Cells(d.Path + "[") {
+			if _, i, ok := splitIndex(k); ok && i+1 > from {
+				from = i + 1
+			}
+		}
+	}
+	fill := constBits(uint64(from), 64)
+	for _, sg := range s.mem.Seqs[d.Path] {
+		var l BitVec
+		if sg.Cells != nil {
+			l = constBits(uint64(len(sg.Cells)), 64)
+		} else {
+			lb, ok := lenBits(AVal{K: ASlice, Path: sg.Src, Lo: sg.SrcLo, Len: -1})
+			if !ok {
+				return AVal{}, false
+			}
+			l = lb
+		}
+		fill = opaqueOp(token.ADD, fill, l, 64).Bits
+	}
+	if diff := opaqueOp(token.SUB, off, fill, 64); diff.K != AInt {
+		return AVal{}, false
+	} else if k, isK := constOfBits(diff.Bits); !isK || k != 0 {
+		return AVal{}, false
+	}
+	n, okN := lenBits(src)
+	if !okN {
+		return AVal{}, false
+	}
+	room := opaqueOp(token.SUB, opaqueOp(token.SUB, total.Bits, fill, 64).Bits, n, 64)
+	c, terms, okL := LinForm(room.Bits)
+	if !okL || c < 0 {
+		return AVal{}, false
+	}
+	for name, k := range terms {
+		if k < 0 || !strings.HasPrefix(name, "len(") {
+			return AVal{}, false
+		}
+	}
+	pre, segs, okD := s.mem.describe(src, et)
+	if !okD {
+		return AVal{}, false
+	}
+	cur := append([]ASeg(nil), s.mem.Seqs[d.Path]...)
+	if len(cur) == 0 {
+		// still a plain prefix: extend it
+		for i, v := range pre {
+			s.mem.Store(fmt.Sprintf("%s[%d]", d.Path, from+i), v, et)
+		}
+		from += len(pre)
+	} else if len(pre) > 0 {
+		cur = append(cur, ASeg{Cells: pre})
+	}
+	cur = append(cur, segs...)
+	s.mem.from[d.Path] = from
+	if len(cur) > 0 {
+		s.mem.Seqs[d.Path] = cur
+	}
+	s.mem.bump(d.Path + "[")
+	return AVal{K: AInt, Bits: n}, true
 }
